@@ -285,6 +285,9 @@ var bodyHdrRe = regexp.MustCompile(`(?i)X-Sim-Body: (\d+)`)
 func scanSIDs(v []byte) []int {
 	seen := map[int]bool{}
 	var out []int
+	// (three passes over a value of up to a megabyte: tell the watchdog that this is the harness at work)
+	kit.Beat.Add(1)
+	defer kit.Beat.Add(1)
 	for _, m := range tokRe.FindAllSubmatch(v, -1) {
 		n, _ := strconv.Atoi(string(m[1]))
 		if !seen[n] {
@@ -292,6 +295,7 @@ func scanSIDs(v []byte) []int {
 			out = append(out, n)
 		}
 	}
+	kit.Beat.Add(1)
 	for _, m := range bodyHdrRe.FindAllSubmatch(v, -1) {
 		n, _ := strconv.Atoi(string(m[1]))
 		if !seen[n] {
@@ -299,6 +303,7 @@ func scanSIDs(v []byte) []int {
 			out = append(out, n)
 		}
 	}
+	kit.Beat.Add(1)
 	for _, m := range seqRe.FindAllSubmatch(v, -1) {
 		n, _ := strconv.Atoi(string(m[1]))
 		if !seen[n] {
